@@ -3,6 +3,7 @@ package harness
 import (
 	"io"
 	"os"
+	"sync"
 
 	"github.com/rs/zerolog"
 	"github.com/rs/zerolog/log"
@@ -23,11 +24,53 @@ var probeMessages = map[string]string{
 	"orphan rescue":                                "probe:orphan-rescue",
 }
 
+var (
+	probeMu        sync.Mutex
+	probeUnloading = map[string]bool{} // tasks between "Unloading shard" and their exit; reset per run
+)
+
+func resetProbes() {
+	probeMu.Lock()
+	probeUnloading = map[string]bool{}
+	probeMu.Unlock()
+}
+
+// unloadMark / unloadOverlapped bracket one sequential request: did an idle unload of
+// some shard overlap it?
+type unloadMark struct{ begun, active int }
+
+func markUnloads() unloadMark {
+	b := sim.Counter("probe:shard-unload-begin")
+	return unloadMark{begun: b, active: b - sim.Counter("probe:shard-unload-end")}
+}
+
+func (m unloadMark) overlapped() bool {
+	return m.active > 0 || sim.Counter("probe:shard-unload-begin") > m.begun
+}
+
 type probeHook struct{}
 
 func (probeHook) Run(e *zerolog.Event, level zerolog.Level, msg string) {
 	if name, ok := probeMessages[msg]; ok {
 		sim.Count(name)
+	}
+	// idle unloads in progress (cluster/shardmgr.go cleanupRoutine): from "Unloading
+	// shard" until that goroutine exits; a request that meets a shard in this window is
+	// answered with the clean "already closed" / "shard unavailable" error (C12 allows it)
+	switch msg {
+	case "Unloading shard":
+		probeMu.Lock()
+		probeUnloading[sim.CurrentTask()] = true
+		probeMu.Unlock()
+		sim.Count("probe:shard-unload-begin")
+	case "Stopping shard cleanup goroutine":
+		probeMu.Lock()
+		was := probeUnloading[sim.CurrentTask()]
+		delete(probeUnloading, sim.CurrentTask())
+		probeMu.Unlock()
+		if was {
+			sim.Count("probe:shard-unload-end")
+		}
 	}
 	if logToStderr {
 		e.Str("task", sim.CurrentTask())
